@@ -204,6 +204,17 @@ def r_gate(ck: Checker) -> None:
         binds = [st for st in walk_body(g.body) if isinstance(st, (ast.Assign, ast.AnnAssign)) and norm(st.targets[0] if isinstance(st, ast.Assign) else st.target) == fmap.id]
         if len(binds) == 1 and binds[0].value is not None:
             fmap = binds[0].value
+    if callc and isinstance(fmap, ast.Call) and isinstance(fmap.func, ast.Name) and ck.repo.has_func(NODE, fmap.func.id):
+        # the field map comes from a helper: a per-class cache kept as a class attribute and read with getattr / hasattr is found on
+        # subclasses as well (attribute lookup follows the MRO), so a subclass would be checked against its parent's fields
+        hfn = ck.repo.func(NODE, fmap.func.id)
+        hraw = hfn.raw or hfn.node
+        gets = [c for c in ast.walk(hraw) if isinstance(c, ast.Call) and dotted(c.func) in ("getattr", "hasattr") and len(c.args) >= 2]
+        sets = [c for c in ast.walk(hraw) if isinstance(c, ast.Call) and dotted(c.func) == "setattr" and len(c.args) == 3]
+        if gets and sets and {norm(c.args[1]) for c in gets} & {norm(c.args[1]) for c in sets}:
+            ck.violation("R-GATE", hfn, gets[0], what, construct=f"{hfn.qualname}: the checked field map is cached as a class attribute and read with {dotted(gets[0].func)} "
+                         "(a subclass inherits the map of its parent: fields it adds are never checked)")
+            return
     if callc and fmap is not None and not isinstance(fmap, ast.DictComp):
         raise Unsupported(f"__post_init__: checked field map {norm(fmap)[:60]} is not a comprehension over the class's fields", g)
     if callc and len(callc[0].args) == 2 and norm(callc[0].args[0]) == "self" and isinstance(fmap, ast.DictComp):
@@ -313,5 +324,8 @@ def run(ck: Checker) -> None:
     ck.guard("R-BOOLGUARD-TT", lambda: r_boolguard(ck))
     ck.guard("R-ZIPGUARD", lambda: r_zipguard_tuple(ck))
     ck.guard("R-GATE", lambda: r_gate(ck))
+    # the types the values are checked against are the annotations as resolved by get_type_hints (shared with C11)
+    from .c11 import r_normalise
+    ck.guard("R-NORMALISE", lambda: r_normalise(ck))
     ck.guard("R-UNION-FIRST", lambda: r_union_first(ck))
     ck.require_count("R-GATE", 4)
